@@ -19,6 +19,7 @@ CONSTANTS
   RhoDropAny = FALSE
   NoisyObjective = FALSE
   WithHuge = FALSE
+  NewDirs = 0
   DefSoftSwap = FALSE
   DefTrialLost = FALSE
   DefX0EvalNum = FALSE
